@@ -84,6 +84,8 @@ def command_of(s, by_out):
         parts.append("d=" + enc(depfile_of(s)))
     if s.deps == "msvc":
         parts.append("msvc=1")
+        if getattr(s, "notes_last", False):
+            parts.append("nl=1")
     if s.restat or getattr(s, "dyn_restat", False):
         parts.append("restat=1")   # the tool writes only on change, whoever declares restat
     if s.generator:
